@@ -75,7 +75,7 @@ def spec_tags(b):
     return tags
 
 
-NEIGH = {"t0": ["p int", "q varchar(5)"], "t2": ["r int NOT NULL", "s int"], "t3": ["u text NULL"]}
+NEIGH = {"t0": ["p int", "q varchar(5)"], "t2": ["r int NOT NULL", "s int"], "t3": ["u text NULL"], "t1": ["v int", "w varchar(9)"]}
 
 
 def compare(V, behs, seeds, what, keep, extra_tables=False, ctor=None, run=None, layouts=("oneline",)):
@@ -86,7 +86,7 @@ def compare(V, behs, seeds, what, keep, extra_tables=False, ctor=None, run=None,
     for b in behs:
         for sd in seeds:
             h = sd + len(b["hist"]) + sum(len(str(a)) for a in b["hist"])
-            nm = T.name_map(sd + h % 3)
+            nm = T.name_map(sd + h % 6, salt=h % 97)     # all six name pools for every seed, the drawn pools re-drawn per behaviour
             layout = layouts[h % len(layouts)]
             before, after = [], []
             if layout == "noterm":
@@ -99,7 +99,12 @@ def compare(V, behs, seeds, what, keep, extra_tables=False, ctor=None, run=None,
                 k = h % 3
                 before = ["t0"] if k >= 1 else []
                 after = ["t2"] if k == 2 else []
-            stmts = [T.lay_out(n, NEIGH[n], layout) for n in before] + [T.render(b["hist"], sd, nm=nm, layout=layout)] + \
+            focus = T.render(b["hist"], sd, nm=nm, layout=layout)
+            if extra_tables and layout != "noterm" and h % 7 == 3:
+                # the table is declared a second time, IF NOT EXISTS, after an earlier declaration of the same name: both are reported
+                before = before + ["t1"]
+                focus = focus.replace("CREATE TABLE t1", "CREATE TABLE IF NOT EXISTS t1", 1)
+            stmts = [T.lay_out(n, NEIGH[n], layout) for n in before] + [focus] + \
                     [T.lay_out(n, NEIGH[n], layout) for n in after]
             tasks.append(("\n".join(stmts) + "\n", ctor or {}, run or {}))
             meta.append((b, sd, nm, before, after, layout))
@@ -107,7 +112,7 @@ def compare(V, behs, seeds, what, keep, extra_tables=False, ctor=None, run=None,
     nbad = 0
     for (b, sd, nm, before, after, layout), tk, o in zip(meta, tasks, outs):
         exp = keep(T.expected(b["obs"], b["open"], nm))
-        want_names = before + ["t1"] + after
+        want_names = before + ["t1"] + after       # (before may end with an earlier declaration of t1 itself)
         paths, got = [], None
         if o[0] != "ok":
             paths, got = ["raised"], list(o[:3])
@@ -119,9 +124,9 @@ def compare(V, behs, seeds, what, keep, extra_tables=False, ctor=None, run=None,
                 raw = tabs[len(before)]
                 got = keep(T.project_table(raw, b["open"], nm))
                 paths = C.diff_paths(exp, got)
-                for t in tabs:
+                for ti, t in enumerate(tabs):
                     n = t["table_name"]
-                    if n in NEIGH and [c["name"] for c in t["columns"]] != [x.split()[0] for x in NEIGH[n]]:
+                    if ti != len(before) and n in NEIGH and [c["name"] for c in t["columns"]] != [x.split()[0] for x in NEIGH[n]]:
                         paths.append("neighbour_" + n)
                 if "t2" in after and [c["nullable"] for c in tabs[len(before) + 1]["columns"]] != [False, True]:
                     paths.append("neighbour_t2")
